@@ -155,6 +155,29 @@ def t4(F, rep):
     rep.add("T4", "repeat-symbol-map", sm == {16: 16, 17: 17, 18: 18}, "%s:%s" % (h.file, h.line), "symbol -> TreeCodeType discriminant %s" % sm)
 
 
+def t4b(F, rep):
+    """RFC 1951 3.2.7: the literal/length and distance code lengths form ONE sequence (repeat codes may cross the
+    boundary); it is split at HLIT only after the whole run-length sequence has been expanded."""
+    b = F.body(P + "huffman_encoding::HuffmanOriginalEncoding::get_literal_distance_lengths")
+    where = "%s:%s" % (b.file, b.line)
+    rets = [flow.describe_rvalue(b, s["r"], names=True) for bb in b.normal_blocks() for s in b.stmts(bb)
+            if s["k"] == "assign" and s["p"]["l"] == 0 and not s["p"]["p"]]
+    m = None
+    if len(rets) == 1:
+        m = re.match(r"^tuple\{to_vec\(index\(var\((\w+)\), Range\{K0, var\(self\)\.num_literals\}\)\), to_vec\(index\(var\((\w+)\), RangeFrom\{var\(self\)\.num_literals\}\)\)\}$", rets[0])
+    ok = m is not None and m.group(1) == m.group(2)
+    # all three kinds of run-length items append to that same vector
+    tgt = set()
+    n_push = 0
+    for bb, t in b.calls():
+        if strip_generics(callee_def(t)).endswith("Vec::push"):
+            n_push += 1
+            tgt.add(flow.describe(b, t["args"][0], names=True))
+    ok2 = ok and n_push >= 3 and tgt == {"var(%s)" % m.group(1)}
+    rep.add("T4", "ld-lengths-one-sequence-split-at-hlit", ok and ok2, where,
+            "returns %s; %d pushes into %s" % (rets, n_push, sorted(tgt)))
+
+
 def t5(F, rep):
     b = F.body(P + "process::parse_deflate")
     where = "%s:%s" % (b.file, b.line)
@@ -201,4 +224,5 @@ def run(ctx, rep):
     from . import part
     part.t3(ctx, rep)
     t4(F, rep)
+    t4b(F, rep)
     t5(F, rep)
